@@ -26,7 +26,7 @@ Section Disabled.
     good_c c -> In ch chords0 -> enabled_on layer ch = true ->
     push_active (get_active_chord ch since coord rf) c = Ok c' -> good_c c'.
   Proof.
-    intros [Hc Ha] Hin Hen. unfold push_active. destruct (Nat.ltb _ _); [|discriminate]. intros E. injection E as <-.
+    intros [Hc Ha] Hin Hen. unfold push_active. destruct (Nat.ltb _ _); intros E; injection E as <-; [|split; assumption].
     split; [exact Hc|]. cbn [set_cv_active cv_active]. apply Forall_app. split; [exact Ha|].
     constructor; [|constructor]. right. exists ch, since, coord, rf. auto.
   Qed.
